@@ -40,8 +40,13 @@ CONSTANTS StartSecs,                  \* seconds of the minute of the start inst
 VARIABLES pc, startSec, dt, clockSec, k, calls, reqs, counts, epochs, target, k0, stepsLeft
 vars == <<pc, startSec, dt, clockSec, k, calls, reqs, counts, epochs, target, k0, stepsLeft>>
 
+\* (the module is unit free: DurationsFrac.tla poses it in hundredths of a second, where the
+\*  remainders "m51" .. "p50" are requests 0.51 s below .. 0.50 s above a multiple of the step)
 RemOf(r, step) == CASE r = "zero" -> 0 [] r = "one" -> 1 [] r = "half" -> step \div 2
                     [] r = "max" -> step - 1
+                    [] r = "m51" -> step - 51 [] r = "m50" -> step - 50 [] r = "m49" -> step - 49
+                    [] r = "m12" -> step - 12 [] r = "p12" -> 12 [] r = "p49" -> 49 [] r = "p50" -> 50
+                    [] r = "s100" -> 100 [] r = "s112" -> 112 [] r = "s150" -> 150
 Requests(step) == {q * step + RemOf(r, step) : q \in Quots, r \in Rems} \ {0}
 Loss == IF InvertStartBySecTruncation /\ startSec # 0 THEN {0, 1} ELSE {0}
 
@@ -117,4 +122,9 @@ RemsThorough == {"zero", "one", "half", "max"}
 DtsLong      == {3600, 7200}
 QuotsLong    == {12, 24, 31, 48}
 RemsLong     == {"zero", "half"}
+\* the sub-second lattice of DurationsFrac.tla (1 tick = 0.01 s): steps of 2, 7, 60, 300 s; requests
+\* k*step - 0.51, - 0.50, - 0.49, - 0.12, + 0, + 0.12, + 0.49, + 0.50, + 1, + 1.12, + 1.50 s
+DtsFrac      == {200, 700, 6000, 30000}
+QuotsFrac    == {0, 1, 2}
+RemsFrac     == {"m51", "m50", "m49", "m12", "zero", "p12", "p49", "p50", "s100", "s112", "s150"}
 =============================================================================
